@@ -187,6 +187,8 @@ def main(argv):
     os.makedirs(outdir, exist_ok=True)
     os.makedirs(os.path.join(ROOT, "replays"), exist_ok=True)
     os.makedirs(os.path.join(ROOT, "evidence"), exist_ok=True)
+    for old in glob.glob(os.path.join(ROOT, "replays", "%s-%s-%d-*" % (pid, tier, seed))):
+        os.remove(old)
     with open(os.path.join(ROOT, "known_findings.json")) as f:
         known = json.load(f).get("findings", [])
 
